@@ -38,7 +38,9 @@ def bounds(tier):
 MOVES = [(0, 0), (1, 0), (-1, 0), (0, 1), (0, -1)]
 
 
-def transitions(sx, layout):
+def transitions(sx, layout, warm=None):
+    """warm: ANOTHER game (different obstacles / walls / fences, same size) is built first and asked about the same placement and
+    joint action; each game object answers for its own board"""
     from msdm.domains.gridgame.tabulargridgame import TabularGridGame, TERMINALSTATE
     name, gs = LAYOUTS[layout]
     has_fence = any(ch in gs for ch in '{}~u')
@@ -61,6 +63,12 @@ def transitions(sx, layout):
             raise core.Infeasible()
         s = {'A0': {'type': 'agent', 'name': 'A0', 'x': p0[0], 'y': p0[1]}, 'A1': {'type': 'agent', 'name': 'A1', 'x': p1[0], 'y': p1[1]}}
         ja = {'A0': {'x': m0[0], 'y': m0[1]}, 'A1': {'x': m1[0], 'y': m1[1]}}
+        if warm is not None:
+            other = TabularGridGame(LAYOUTS[warm][1], fence_success_prob=sx.const(F(1, 4)))
+            try:
+                list(other.next_state_dist(s, ja).items())
+            except Exception:  # noqa: BLE001  (the placement may be illegal on the other board: irrelevant here)
+                pass
         with sx.must_not_raise('next_state_dist'):
             d = gg.next_state_dist(s, ja)
             sup = list(d.support)
@@ -202,6 +210,8 @@ def jobs(tier):
     o = dict(timeout_ms=30000, budget_s=1500, max_paths=40000)
     for i in range(len(LAYOUTS)):
         yield ('transitions', dict(layout=i), dict(o, cost=20, twin=3))
+    yield ('transitions', dict(layout=2, warm=3), dict(o, cost=20, twin=3))
+    yield ('transitions', dict(layout=3, warm=2), dict(o, cost=20, twin=3))
     for t in range(len(TABLES)):
         yield ('factor_product', dict(tsel=t), o)
     yield ('factor_mix', dict(tsel=3), o)
